@@ -67,6 +67,12 @@ def strategy(tier):
         stream = [[r, w] for r, w in stream]
         mode = draw(st.sampled_from(("positive", "datum", "datum", "structure", "structure", "perturb", "perturb", "arbitrary", "history")))
         case = {"spec": spec, "stream": stream, "mode": mode}
+        if mode == "positive":
+            # the state may also be one made by the combining constructors (immutable; Stack.build has NaN thresholds)
+            case["built"] = draw(st.sampled_from((None, None, "stack", "stack3", "fraction")))
+            if case["built"]:
+                s2, _ = draw(gen.streams(spec, max_rows=8, focus=focus))
+                case["stream2"] = [[r, w] for r, w in s2]
         if mode == "datum":
             n = len(stream)
             crit = gen.critical_values(spec)
@@ -177,6 +183,11 @@ def check(case):  # noqa: PLR0912, PLR0915
     try:
         set_tol(0.0)
         if mode == "positive":
+            built = case.get("built")
+            if built:
+                a2 = fill(build(spec), case["stream2"])
+                a = {"stack": lambda: hg.Stack.build(a, a2), "stack3": lambda: hg.Stack.build(a, a2, a.copy()), "fraction": lambda: hg.Fraction.build(a, a2)}[built]()
+                labels.append("built:" + built)
             r = hg.Factory.fromJson(a.toJson())
             pairs = [("self", a, a), ("copy", a, a.copy()), ("pickle", a, pickle.loads(pickle.dumps(a))), ("reload", a.toImmutable(), r), ("reload-copy", r, r.copy())]
             for what, x, y in pairs:
